@@ -54,7 +54,7 @@ def rng_rules(rep, prog, f, seed_param="random_state", unseeded_live=False):
     for e in effects:
         if e.kind in ("make_gen", "seed_global"):
             v = e.what.seed if e.kind == "make_gen" else e.what
-            if isinstance(v, tuple):
+            if isinstance(v, tuple) and v != ("restored-state",):
                 rep.bad("R3.seed-expression", ewhere(e), "seed is derived (%s), not the parameter itself" % (v[0],))
     reseeds = [e for e in effects if e.kind == "seed_global" and e.depth > 0]
     if reseeds:
